@@ -37,15 +37,27 @@ pub fn format_error_body<N: Nd, const M: usize>(nd: &mut N) {
 
 harnesses! {
     #[kani::unwind(7)]
+    #[kani::stub(core::slice::memchr::memchr, crate::env::memchr_stub)]
+    #[kani::stub(core::slice::memchr::memrchr, crate::env::memrchr_stub)]
+    #[kani::stub(core::str::count::count_chars, crate::env::count_chars_stub)]
     #[kani::stub(alloc::fmt::format, crate::env::format_stub)]
     fn c11_format_error_n3(nd) { format_error_body::<_, 3>(nd) }
     #[kani::unwind(7)]
+    #[kani::stub(core::slice::memchr::memchr, crate::env::memchr_stub)]
+    #[kani::stub(core::slice::memchr::memrchr, crate::env::memrchr_stub)]
+    #[kani::stub(core::str::count::count_chars, crate::env::count_chars_stub)]
     #[kani::stub(alloc::fmt::format, crate::env::format_stub)]
     fn c11_format_error_n4(nd) { format_error_body::<_, 4>(nd) }
     #[kani::unwind(8)]
+    #[kani::stub(core::slice::memchr::memchr, crate::env::memchr_stub)]
+    #[kani::stub(core::slice::memchr::memrchr, crate::env::memrchr_stub)]
+    #[kani::stub(core::str::count::count_chars, crate::env::count_chars_stub)]
     #[kani::stub(alloc::fmt::format, crate::env::format_stub)]
     fn c11_format_error_n5(nd) { format_error_body::<_, 5>(nd) }
     #[kani::unwind(9)]
+    #[kani::stub(core::slice::memchr::memchr, crate::env::memchr_stub)]
+    #[kani::stub(core::slice::memchr::memrchr, crate::env::memrchr_stub)]
+    #[kani::stub(core::str::count::count_chars, crate::env::count_chars_stub)]
     #[kani::stub(alloc::fmt::format, crate::env::format_stub)]
     fn c11_format_error_n6(nd) { format_error_body::<_, 6>(nd) }
 }
